@@ -207,8 +207,8 @@ func runStress(enc *json.Encoder, cat *Catalog, rnd *rand.Rand, stack string, im
 	for _, op := range setup {
 		h.call(ctx, w, 0, op)
 	}
-	// the yield hook widens the windows between critical sections
 	hookSeed := rnd.Int63()
+	// the yield hook widens the windows between critical sections
 	var hookN atomic.Int64
 	ocimem.VerifHook = func(point string) {
 		k := hookN.Add(1)
@@ -223,6 +223,23 @@ func runStress(enc *json.Encoder, cat *Catalog, rnd *rand.Rand, stack string, im
 	progs := make([][]Op, g)
 	for i := range progs {
 		progs[i] = concOps(rnd, cat, 2+rnd.Intn(maxOps-1), imm)
+	}
+	if rnd.Intn(3) == 0 {
+		// contention: every goroutine starts with the same kind of write on the same key at the
+		// same moment - large manifests pushed to one tag, or blobs pushed into a repository
+		// that does not exist yet while others look at it
+		bigs := []string{"big1", "big2", "big3"}
+		for i := range progs {
+			var pre []Op
+			if rnd.Intn(2) == 0 {
+				pre = []Op{{Op: "PushManifest", R: "r1", T: "t2", C: bigs[(i+int(hookSeed%3))%3], MT: "other"}, {Op: "ResolveTag", R: "r1", T: "t2"}}
+			} else if i%2 == 0 {
+				pre = []Op{{Op: "PushBlob", R: "r2", C: "b2", DD: "b2", DS: 2, Chunk: 1}}
+			} else {
+				pre = []Op{{Op: "ListRepos"}, {Op: "ResolveBlob", R: "r2", C: "b2"}, {Op: "ListRepos"}, {Op: "GetBlob", R: "r2", C: "b2"}}
+			}
+			progs[i] = append(pre, progs[i]...)
+		}
 	}
 	var wg sync.WaitGroup
 	start := make(chan struct{})
@@ -242,7 +259,8 @@ func runStress(enc *json.Encoder, cat *Catalog, rnd *rand.Rand, stack string, im
 	// a sequential epilogue reads everything back (goroutine 0): pins down the final state
 	for _, op := range []Op{{Op: "ResolveTag", R: "r1", T: "t1"}, {Op: "GetTag", R: "r1", T: "t1"}, {Op: "GetBlob", R: "r1", C: "b1"},
 		{Op: "GetBlob", R: "r1", C: "b2"}, {Op: "ResolveManifest", R: "r1", C: "img"}, {Op: "ResolveManifest", R: "r1", C: "idx"},
-		{Op: "ResolveManifest", R: "r1", C: "sub"}, {Op: "UpSize", R: "r1", U: "u1"}} {
+		{Op: "ResolveManifest", R: "r1", C: "sub"}, {Op: "UpSize", R: "r1", U: "u1"}, {Op: "ResolveTag", R: "r1", T: "t2"},
+		{Op: "ResolveBlob", R: "r2", C: "b2"}, {Op: "ListRepos"}} {
 		h.call(ctx, w, 0, op)
 	}
 	h.flush(enc)
